@@ -369,9 +369,16 @@ class Env:
         c = self.stub(16, 0xA000, twice, query=query)
 
         def deliver(data):
-            ev, q = t._outstanding[7]
-            q.extend(bytes(m) for m in msgs)
-            q.append("fail")      # sentinel: running out of reports = still waiting
+            try:
+                ev, q = t._outstanding[7]
+                q.extend(bytes(m) for m in msgs)
+                q.append("fail")      # sentinel: running out of reports = still waiting
+            except (TypeError, ValueError, AttributeError):
+                # the library keeps its in-flight commands in some other form: hand the reports to its own read
+                # handler and let its own shutdown path queue the sentinel
+                for m in msgs:
+                    t._handle_read(bytes(m))
+                t._shutdown_device()
         self.writes = []
         self.on_write = deliver
         st, v = self.drive(t._send_raw(c))
